@@ -2,7 +2,7 @@ import BSModel.Proofs.TokenizerTerm
 /-! Tokenizer: facts about single events lifted from one loop turn to the whole run; start-tag callbacks consume a
 chunk that begins with `<`; spans. -/
 namespace BS.Tokenizer
-open BS.SourcePos
+open BS.SourcePos BS.Adapter
 
 /-! ### lifting a per-event fact from `step`/`flush` to `run` -/
 
@@ -184,5 +184,51 @@ theorem spans_mem (evs : List Ev) : ∀ (o : Nat) (e : Ev) (lo hi : Nat), (e, lo
     · obtain ⟨a, b, hab, hlo, hhi⟩ := ih _ e lo hi h
       refine ⟨x :: a, b, by simp [hab], ?_, hhi⟩
       simp only [srcs_cons, List.length_append]; omega
+
+/-! ### the start-tag callbacks and their offsets -/
+
+theorem lineCol_prefix (a b : PStr) : lineCol (a ++ b) a.length = lineCol a a.length := by
+  simp [lineCol]
+
+/-- offsets of the chunks of the start-tag events, in order (`o` = offset of the first event) -/
+def startOffsets : Nat → List Ev → List Nat
+  | _, [] => []
+  | o, e :: es => (if isStart e.tok then [o] else []) ++ startOffsets (o + e.src.length) es
+
+theorem startOffsets_mem (evs : List Ev) : ∀ (o lo : Nat), lo ∈ startOffsets o evs →
+    ∃ e hi, (e, lo, hi) ∈ spans o evs ∧ isStart e.tok = true := by
+  induction evs with
+  | nil => intro o lo h; simp [startOffsets] at h
+  | cons x xs ih =>
+    intro o lo h
+    simp only [startOffsets, List.mem_append] at h
+    rcases h with h | h
+    · split at h
+      · rename_i hx
+        simp only [List.mem_singleton] at h; subst h
+        exact ⟨x, lo + x.src.length, by simp [spans], hx⟩
+      · simp at h
+    · obtain ⟨e, hi, he, hs⟩ := ih _ lo h
+      exact ⟨e, hi, by simp [spans, he], hs⟩
+
+theorem startPositions_of_WP (text : PStr) : ∀ (evs : List Ev) (pre rest : PStr), WP pre evs →
+    pre ++ srcs evs ++ rest = text →
+    startPositions (evs.filterMap toSEv) = (startOffsets pre.length evs).map (lineCol text) := by
+  intro evs
+  induction evs with
+  | nil => intro pre rest _ _; simp [startPositions, startOffsets]
+  | cons e es ih =>
+    intro pre rest hw hc
+    obtain ⟨hp, hw'⟩ := hw
+    have hc' : (pre ++ e.src) ++ srcs es ++ rest = text := by simpa [List.append_assoc] using hc
+    have ih' := ih (pre ++ e.src) rest hw' hc'
+    simp only [List.length_append] at ih'
+    have hpos : e.pos = lineCol text pre.length := by
+      rw [hp, ← hc, List.append_assoc, lineCol_prefix]
+    simp only [startOffsets, List.filterMap_cons]
+    cases htok : e.tok <;> simp only [toSEv, htok, isStart] <;>
+      first
+      | (rw [startPositions_cons, ih']; simp [startPositions, ← hpos])
+      | (simpa using ih')
 
 end BS.Tokenizer
